@@ -42,9 +42,18 @@ type propCfg struct {
 	Faults       []string
 }
 
+var cleanup []func()
+
+func exit(code int) {
+	for _, f := range cleanup {
+		f()
+	}
+	os.Exit(code)
+}
+
 func infra(format string, args ...interface{}) {
 	fmt.Fprintf(os.Stderr, "check: INFRA: "+format+"\n", args...)
-	os.Exit(2)
+	exit(2)
 }
 
 func fingerprint(root string, extra ...string) string {
@@ -106,6 +115,7 @@ func ensureBuild(yield string) (dir string, fp string) {
 	if err != nil {
 		infra("mkdir temp: %v", err)
 	}
+	cleanup = append(cleanup, func() { os.RemoveAll(tmp) })
 	defer os.RemoveAll(tmp)
 	cmd := exec.Command(filepath.Join(verifDir, "build_sim.sh"), filepath.Join(tmp, "t"))
 	cmd.Env = append(os.Environ(), "VERIF_YIELD="+yield, "VERIF_REPO="+repoDir)
@@ -310,10 +320,10 @@ func main() {
 		switch code {
 		case 0:
 			fmt.Printf("replay: the current tree does not fail on %s\n", *replay)
-			os.Exit(0)
+			exit(0)
 		case 1, 3, 4:
 			fmt.Printf("VIOLATION property=%s replay=%s\n", id, *replay)
-			os.Exit(1)
+			exit(1)
 		}
 		infra("replay failed (exit %d)", code)
 	}
@@ -340,7 +350,7 @@ func main() {
 		infra("mkdir: %v", err)
 	}
 	if !*keep {
-		defer os.RemoveAll(work)
+		cleanup = append(cleanup, func() { os.RemoveAll(work) })
 	}
 
 	var wg sync.WaitGroup
@@ -499,9 +509,9 @@ func main() {
 		fmt.Println(l)
 	}
 	if len(violationLines) > 0 {
-		os.Exit(1)
+		exit(1)
 	}
-	os.Exit(0)
+	exit(0)
 }
 
 func indent(s string) string {
